@@ -1,6 +1,7 @@
 (* C20 — Huffman code construction and bit I/O. Models: Prefix/Code.v
    (GenerateLengths with any limit, GeneratePrefixes), bit fields as bit lists. *)
 From Coq Require Import Sorting.Sorted Sorting.Permutation.
+From V Require Import Prefix.Range Prefix.RangeSpec Prefix.RangeThms.
 From V Require Import Prefix.DecTable Prefix.DecTableSpec Prefix.DecTableThms Prefix.DecReadThms Prefix.DecReadBufThms Prefix.EncTableThms Prefix.EncDecThms Prefix.DecCanonThms Prefix.DecGenLink.
 From V Require Import Prefix.GenPrefixesThms Prefix.GenLengthsThms Prefix.GenPipelineThms.
 From V Require Import Prefix.WriterImpl Prefix.WriterSpec Prefix.WriterThms.
@@ -199,3 +200,30 @@ Print Assumptions symbol_written_with_encoder_is_read_by_decoder.
 Theorem gen_prefixes_output_fits_the_decoder_table : gen_prefixes_valid_statement.
 Proof. exact gen_prefixes_table_valid. Qed.
 Print Assumptions gen_prefixes_output_fits_the_decoder_table.
+
+(* OFFSETS AS (RANGE SYMBOL, EXTRA BITS) - RangeEncoder at implementation level (1024-entry
+   lookup table, linear walk beyond it, uint32/uint wrap-around; model run against the real
+   code on every run, WRANGE): for every range set checkValid accepts (overlaps included) and
+   every offset of its domain, Encode terminates, does not panic and returns the last range
+   that starts at or before the offset; that range holds the offset and the extra bits hold
+   the remainder ... *)
+Theorem range_encoder_returns_the_range_holding_the_offset : forall rcs re off,
+  rcs_wf rcs -> N.of_nat (length rcs) <= 2 ^ 32 -> re_init rcs = RgOk re ->
+  in_domain rcs off ->
+  exists s, re_encode re off = RgOk (N.of_nat s) /\
+            last_le rcs off s /\ holds rcs s off /\
+            rlen rcs s < 32 /\ off - rbase rcs s < 2 ^ rlen rcs s.
+Proof. exact re_encode_domain. Qed.
+Print Assumptions range_encoder_returns_the_range_holding_the_offset.
+
+(* ... and WriteOffset followed by ReadOffset returns the offset *)
+Theorem offset_written_is_offset_read : forall rcs re off,
+  rcs_wf rcs -> N.of_nat (length rcs) <= 2 ^ 32 -> re_init rcs = RgOk re ->
+  in_domain rcs off ->
+  exists s v n,
+    write_offset re off = RgOk (N.of_nat s, v, n) /\
+    last_le rcs off s /\ n = rlen rcs s /\ n < 32 /\ v = off - rbase rcs s /\ v < 2 ^ n /\
+    range_decode rcs s v = off /\
+    forall extra_of, extra_of n = v -> read_offset rcs (N.of_nat s) extra_of = RgOk off.
+Proof. exact write_read_offset. Qed.
+Print Assumptions offset_written_is_offset_read.
